@@ -96,6 +96,11 @@ def run(ck: Checker):
     for r in rem:
         if not (closes & reachable(cfg, [r.id])):
             probs.append('the log queue is not closed after the handler was removed')
+    # ...and its feeder thread is joined at process exit (the default): cancelling that join lets the child exit with
+    # records still buffered in the feeder -- they are lost without any sign
+    cj = [n for n in walk_deep_func(f.node) if isinstance(n, ast.Call) and method_of(n)[1] == 'cancel_join_thread']
+    if cj:
+        probs.append(f'L{cj[0].lineno}: `{norm_text(cj[0])}`: the child no longer waits for its log queue to be flushed when it exits; records still buffered at that moment never reach the parent')
     # records emitted by handle_exception must be queued before the handler goes: removal is in the finally
     if any(r.pending is None for r in rem):
         probs.append('the handler removal is not in the cleanup of the try that runs the target')
@@ -164,4 +169,14 @@ def run(ck: Checker):
         hc = [c for c in calls_in(header_expr(handle[0])) if method_of(c)[1] == 'handle'][0]
         if not (hc.args and is_name(hc.args[0], rec)):
             probs.append('the record handled is not the one just dequeued')
+        # the level that gates a record is that of the logger the record names, which is also the logger that handles it
+        hrecv = method_of(hc)[0]
+        hname = hrecv.id if isinstance(hrecv, ast.Name) else None
+        defs = [n for n in rcfg.nodes if isinstance(n.ast, ast.Assign) and hname and any(is_name(t, hname) for t in n.ast.targets)]
+        if not (hname and len(defs) == 1 and isinstance(defs[0].ast.value, ast.Call) and (dotted(defs[0].ast.value.func) or '').endswith('getLogger') and defs[0].ast.value.args and norm_text(defs[0].ast.value.args[0]) == f'{rec}.name'):
+            probs.append(f'the record is not handled by `logging.getLogger({rec}.name)` (the logger it was emitted on)')
+        elif lev:
+            gl = [c for c in calls_in(lev[0].ast) if method_of(c)[1] == 'getEffectiveLevel']
+            if gl and not is_name(method_of(gl[0])[0], hname):
+                probs.append(f'the level gate asks `{norm_text(method_of(gl[0])[0])}`, not `{hname}` — the logger the record names: records are let through or dropped by the level of the wrong logger (e.g. the library\'s own module logger)')
     ck.ob('C20-3', rl, (rl.node.lineno, '_run_logger'), not probs, '; '.join(probs) if probs else 'every dequeued record that is not the end marker is handled, gated only by the logger\'s effective level')
